@@ -1,238 +1,54 @@
 /-
-C09 — apply() is pure: no history, aliasing or batch-size effects.  Property theorems.
-Core Lean only.
+C09 — apply() is pure: no history, aliasing or batch-size effects.  Property theorems (collected).
+
+  Props/C09Base.lean   batching, the abstract failure mask, the CachedPWA memo, frame ⇒ purity
+  Props/C09Pwa.lean    the piecewise-affine point location (`index_alpha_beta`, `_apply`, batched apply,
+                       `pwa_point_in_pointcloud`): array-level model = per-point reading; mask, batch size,
+                       grouping, permutation
+  Props/C09Geom.lean   `alpha_beta` are the barycentric coordinates (ℚ algebra): containment = closed triangle,
+                       image = barycentric combination of the target vertices
+  Props/C09Chain.lean  `TransformChain._apply` / `WithDims._apply` as folds; chains with a piecewise-affine member
+  Props/C09Memo.lean   the memo as its two attributes written in sequence
+  below                the caching piecewise affine transform end to end; fresh-transform form of the frame theorem
 -/
-import MenpoModel.Core.C09
+import MenpoModel.Props.C09Base
+import MenpoModel.Props.C09Pwa
+import MenpoModel.Props.C09Geom
+import MenpoModel.Props.C09Chain
+import MenpoModel.Props.C09Memo
 
 namespace MenpoModel.C09
 
-/-! ### helper lemmas -/
+/-- `AbstractPWA._apply` of the caching class: the memoised `(index, alpha, beta)` pushed through the target
+triangles (`none` = no value stored; unreachable after a successful `index_alpha_beta`) -/
+def finishApply (tgt : List Tri) :
+    Except (List Bool) (Option (List (Nat × Rat × Rat))) → Except (List Bool) (List Pt)
+  | .ok (some iab) => .ok (iab.map fun tab => bary (tgt.getD tab.1 default) tab.2.1 tab.2.2)
+  | .ok none => .ok []
+  | .error m => .error m
 
-theorem chunks_flatten {α} (k : Nat) (hk : 0 < k) :
-    ∀ (fuel : Nat) (xs : List α), xs.length < fuel → (chunks k fuel xs).flatten = xs := by
-  intro fuel
-  induction fuel with
-  | zero => intro xs h; omega
-  | succ n ih =>
-    intro xs h
-    cases xs with
-    | nil => simp [chunks]
-    | cons x t =>
-      have hlen : ((x :: t).drop k).length < n := by
-        simp only [List.length_drop, List.length_cons] at *; omega
-      simp only [chunks, List.flatten_cons, ih _ hlen, List.take_append_drop]
+/-- PROPERTY (the caching piecewise-affine transform, end to end): a fresh `CachedPWA` driven through *any* finite
+interleaving of `apply` calls on caller arrays and in-place edits of those arrays (arrays re-used, values that
+differ arbitrarily little, failed applications in between) returns at every call exactly the stateless
+piecewise-affine result — mapped points or failure mask — for the current values of the array passed -/
+theorem cachedPwa_history_pure (src tgt : List Tri) (ops : List (Op (List Pt))) (heap : Nat → List Pt) :
+    ∀ p ∈ run2 false (indexAlphaBeta src) { heap := heap, key := none, iab := none } ops,
+      finishApply tgt p.2 = (toPwa src tgt).apply p.1 := by
+  intro p hp
+  rw [apply_pure_two_attributes (indexAlphaBeta src) ops _ (fresh_memo2Ok _ heap) p hp, ← pwaApply_eq_toPwa]
+  unfold pwaApply
+  cases indexAlphaBeta src p.1 <;> rfl
 
-theorem batches_flatten {α} (k : Nat) (hk : 0 < k) (xs : List α) : (batches k xs).flatten = xs :=
-  chunks_flatten k hk _ xs (by omega)
+/-- frame ⇒ "equals a fresh transform": with `G` the module-level state and `S` the instance attributes, if
+`apply` writes neither, then after any history the answer for `x` is the answer of a fresh transform with the
+same parameters.  The frame hypothesis is what the regenerated obligations `applyWrites_ok`, `globalWrites_ok`
+(measured on live objects) and `hiddenState_ok` (no place for module-level state in the anchored files) check. -/
+theorem apply_eq_fresh {G S I O} (m : Machine (G × S) I O) (hframe : ∀ gs x, (m.step gs x).1 = gs)
+    (g : G) (s : S) (hist : List I) (x : I) :
+    (m.run (g, s) (hist ++ [x])).getLast? = some (m.step (g, s) x).2 := by
+  rw [pure_of_no_writes m hframe, List.map_append, List.map_cons, List.map_nil]
+  exact List.getLast?_concat
 
-theorem flatMap_hom {α β} (f : List α → List β) (hnil : f [] = [])
-    (hf : ∀ a b, f (a ++ b) = f a ++ f b) (cs : List (List α)) : cs.flatMap f = f cs.flatten := by
-  induction cs with
-  | nil => simp [hnil]
-  | cons c cs ih => simp [List.flatMap_cons, ih, hf]
-
-/-! ### PROPERTY: batching.  For every transform whose `_apply` acts point by point (more generally:
-commutes with concatenation), every batch size k ≥ 1 — dividing n or not, larger than n or not —
-gives the unbatched result. -/
-
-theorem batched_eq_unbatched_hom {α β} (f : List α → List β) (hnil : f [] = [])
-    (hf : ∀ a b, f (a ++ b) = f a ++ f b) (k : Nat) (hk : 0 < k) (xs : List α) :
-    applyBatched f k xs = f xs := by
-  unfold applyBatched
-  rw [flatMap_hom f hnil hf, batches_flatten k hk]
-
-theorem batched_eq_unbatched {α β} (g : α → β) (k : Nat) (hk : 0 < k) (xs : List α) :
-    applyBatched (List.map g) k xs = xs.map g :=
-  batched_eq_unbatched_hom (List.map g) rfl (fun _ _ => List.map_append) k hk xs
-
-/-! ### PROPERTY: the piecewise-affine failure mask. -/
-
-/-- unbatched: the error marks exactly the out-of-domain points, once per input point;
-success iff every point is in the domain -/
-theorem pwa_mask_exact_unbatched {α β} (d : Pwa α β) (xs : List α) :
-    (∀ m, d.apply xs = .error m → m.length = xs.length ∧ ∀ i : Nat, m[i]? = xs[i]?.map (fun x => !d.inDom x)) ∧
-    (∀ r, d.apply xs = .ok r → xs.all d.inDom = true ∧ r = xs.map d.f) := by
-  unfold Pwa.apply
-  constructor
-  · intro m h
-    split at h
-    · simp at h
-    · simp only [Except.error.injEq] at h; subst h; simp
-  · intro r h
-    split at h
-    · rename_i hall; simp only [Except.ok.injEq] at h; exact ⟨hall, h.symm⟩
-    · simp at h
-
-theorem foldBatches_length_spec {α β} (d : Pwa α β) (cs : List (List α)) :
-    (foldBatches d List.length cs).2.1 = cs.flatten.map (fun x => !d.inDom x) ∧
-    (foldBatches d List.length cs).2.2 = !(cs.flatten.all d.inDom) ∧
-    ((foldBatches d List.length cs).2.2 = false → (foldBatches d List.length cs).1 = cs.flatten.map d.f) := by
-  induction cs with
-  | nil => simp [foldBatches]
-  | cons c cs ih =>
-    obtain ⟨h1, h2, h3⟩ := ih
-    simp only [foldBatches]
-    by_cases hc : c.all d.inDom = true
-    · have hrep : List.replicate c.length false = c.map (fun x => !d.inDom x) := by
-        apply List.ext_getElem (by simp)
-        intro i hi1 hi2
-        simp only [List.getElem_replicate, List.getElem_map]
-        have hi : i < c.length := by simpa using hi1
-        have := List.all_eq_true.mp hc (c[i]'hi) (List.getElem_mem _)
-        simp [this]
-      simp only [Pwa.apply, hc, if_true, List.flatten_cons, List.map_append, List.all_append,
-        Bool.true_and]
-      refine ⟨by rw [hrep, h1], h2, ?_⟩
-      intro ht
-      rw [h3 ht]
-    · simp only [Pwa.apply, hc, List.flatten_cons, List.map_append, List.all_append]
-      simp only [Bool.not_eq_true] at hc
-      simp [hc, h1]
-
-/-- PROPERTY (repaired `_apply_batched`): for every batch size k ≥ 1 and every mix of in- and
-out-of-domain points the batched application is *the same* as the unbatched one — same points on
-success, and on failure the same mask: one entry per input point, marking exactly the outside points. -/
-theorem pwa_batched_fixed_eq {α β} (d : Pwa α β) (k : Nat) (hk : 0 < k) (xs : List α) :
-    batchedFixed d k xs = d.apply xs := by
-  unfold batchedFixed
-  obtain ⟨h1, h2, h3⟩ := foldBatches_length_spec d (batches k xs)
-  rw [batches_flatten k hk] at h1 h2 h3
-  generalize hfb : foldBatches d List.length (batches k xs) = r at *
-  obtain ⟨o, m, t⟩ := r
-  simp only at h1 h2 h3
-  unfold finishBatches Pwa.apply
-  by_cases hall : xs.all d.inDom = true
-  · have ht : t = false := by rw [h2, hall]; rfl
-    simp [ht, hall, h3 ht]
-  · simp only [Bool.not_eq_true] at hall
-    have ht : t = true := by rw [h2, hall]; rfl
-    simp [ht, hall, h1]
-
-/-- the behaviour coded before the repair is refuted: 5 points, batch size 2, the first point
-outside the domain — the mask has 6 entries for 5 points. -/
-def dEven : Pwa Nat Nat := { inDom := fun x => x != 0, f := id }
-theorem pwa_batched_coded_refuted :
-    batchedCoded dEven 2 [0, 1, 2, 3, 4] = .error [true, false, false, false, false, false] ∧
-    dEven.apply [0, 1, 2, 3, 4] = .error [true, false, false, false, false] := by
-  constructor <;> rfl
-
-/-! ### PROPERTY: no history or aliasing effects (the CachedPWA memo). -/
-
-def MemoOk {Val Res Err} (compute : Val → Except Err Res) (s : StFixed Val Res) : Prop :=
-  ∀ v res, s.memo = some (v, res) → compute v = .ok res
-
-theorem stepFixed_spec {Val Res Err} [DecidableEq Val] (compute : Val → Except Err Res)
-    (s : StFixed Val Res) (h : MemoOk compute s) (op : Op Val) :
-    MemoOk compute (stepFixed compute s op).1 ∧
-    (∀ a, op = .apply a → (stepFixed compute s op).2 = some (compute (s.heap a))) := by
-  cases op with
-  | write a v => exact ⟨fun v' res hm => h v' res (by simpa [stepFixed] using hm), by simp⟩
-  | apply a =>
-    simp only [stepFixed]
-    cases hm : s.memo with
-    | none =>
-      simp only
-      cases hc : compute (s.heap a) with
-      | error e => exact ⟨fun v res hm' => h v res (by simpa using hm'), by simp [hc]⟩
-      | ok res =>
-        refine ⟨?_, by simp [hc]⟩
-        intro v res' hm'
-        simp only [Option.some.injEq, Prod.mk.injEq] at hm'
-        rw [← hm'.1, ← hm'.2]; exact hc
-    | some p =>
-      obtain ⟨v, res⟩ := p
-      simp only
-      by_cases heq : s.heap a = v
-      · have hv := h v res hm
-        simp only [heq, if_true]
-        exact ⟨fun v' res' hm' => h v' res' (by simpa using hm'), by intro b hb; cases hb; simp [heq, hv]⟩
-      · simp only [heq, if_false]
-        cases hc : compute (s.heap a) with
-        | error e => exact ⟨fun v' res' hm' => h v' res' (by simpa using hm'), by simp [hc]⟩
-        | ok res2 =>
-          refine ⟨?_, by simp [hc]⟩
-          intro v' res' hm'
-          simp only [Option.some.injEq, Prod.mk.injEq] at hm'
-          rw [← hm'.1, ← hm'.2]; exact hc
-
-/-- PROPERTY (repaired memo): over *every* finite interleaving of applies and in-place edits of any
-arrays — including re-use of an array passed before, and inputs that differ arbitrarily little —
-every `apply` returns exactly what the stateless computation gives for the array's current values. -/
-theorem apply_pure_fixed {Val Res Err} [DecidableEq Val] (compute : Val → Except Err Res)
-    (ops : List (Op Val)) (s : StFixed Val Res) (h : MemoOk compute s) :
-    ∀ p ∈ runFixed compute s ops, p.2 = compute p.1 := by
-  induction ops generalizing s with
-  | nil => simp [runFixed]
-  | cons op ops ih =>
-    obtain ⟨hinv, hout⟩ := stepFixed_spec compute s h op
-    intro p hp
-    cases op with
-    | write a v =>
-      simp only [runFixed, stepFixed] at hp
-      exact ih _ (by simpa [stepFixed] using hinv) p hp
-    | apply a =>
-      have ho := hout a rfl
-      simp only [runFixed] at hp
-      rw [ho] at hp
-      simp only [List.mem_cons] at hp
-      rcases hp with rfl | hp
-      · rfl
-      · exact ih _ hinv p hp
-
-/-- a fresh transform satisfies the invariant -/
-theorem fresh_memoOk {Val Res Err} (compute : Val → Except Err Res) (heap : Nat → Val) :
-    MemoOk compute ({ heap := heap, memo := none } : StFixed Val Res) := by
-  intro v res h; simp at h
-
-/-- the memo coded before the repair is refuted, even with *exact* comparison, by aliasing alone:
-apply to array 0, overwrite array 0 in place, apply again — the second answer is the first one. -/
-theorem apply_pure_coded_refuted_aliasing :
-    runCoded (Val := Nat) (Res := Nat) (Err := Unit) (fun a b => a == b) (fun v => .ok (v + 100))
-      { heap := fun _ => 1, memo := none } [.apply 0, .write 0 5, .apply 0]
-      = [(1, .ok 101), (5, .ok 101)] := by rfl
-
-/-- … and by tolerance alone: two different arrays whose values are `close` -/
-theorem apply_pure_coded_refuted_tolerance :
-    runCoded (Val := Nat) (Res := Nat) (Err := Unit) (fun a b => a ≤ b + 1 && b ≤ a + 1)
-      (fun v => .ok (v + 100))
-      { heap := fun a => a + 1, memo := none } [.apply 0, .apply 1]
-      = [(1, .ok 101), (2, .ok 101)] := by rfl
-
-/-! ### non-vacuity -/
-example : applyBatched (List.map (· + 1)) 2 [1, 2, 3, 4, 5] = [2, 3, 4, 5, 6] := by rfl
-example : batches 2 [1, 2, 3, 4, 5] = [[1, 2], [3, 4], [5]] := by rfl
-example : batches 7 [1, 2, 3] = [[1, 2, 3]] := by rfl
-example : batchedFixed dEven 2 [0, 1, 2, 3, 4] = .error [true, false, false, false, false] := by rfl
-example : batchedFixed dEven 2 [1, 2, 3, 4, 5] = .ok [1, 2, 3, 4, 5] := by rfl
-example : runFixed (Val := Nat) (Res := Nat) (Err := Unit) (fun v => .ok (v + 100))
-    { heap := fun _ => 1, memo := none } [.apply 0, .write 0 5, .apply 0, .apply 0]
-    = [(1, .ok 101), (5, .ok 105), (5, .ok 105)] := by rfl
-
-end MenpoModel.C09
-
-namespace MenpoModel.C09
-
-/-! ### PROPERTY: a transform whose `apply` writes none of its attributes is history independent -/
-
-/-- frame condition ⇒ purity: if applying never changes the instance state then, over every finite
-sequence of applications, each result is the stateless function of that call's input alone. -/
-theorem pure_of_no_writes {S I O} (m : Machine S I O) (hframe : ∀ s x, (m.step s x).1 = s)
-    (s : S) (xs : List I) : m.run s xs = xs.map (fun x => (m.step s x).2) := by
-  induction xs generalizing s with
-  | nil => rfl
-  | cons x xs ih => simp [Machine.run, hframe, ih]
-
-/-- … in particular calling again, or calling with other inputs in between, never changes an answer -/
-theorem pure_of_no_writes_interleaved {S I O} (m : Machine S I O) (hframe : ∀ s x, (m.step s x).1 = s)
-    (s : S) (pre mid : List I) (x : I) :
-    (m.run s (pre ++ x :: mid ++ [x])).getLast? = some (m.step s x).2 ∧
-    (m.run s (pre ++ [x]))[pre.length]? = some (m.step s x).2 := by
-  rw [pure_of_no_writes m hframe, pure_of_no_writes m hframe]
-  constructor
-  · rw [List.map_append, List.map_cons, List.map_nil]
-    exact List.getLast?_concat
-  · simp
-
-example : (⟨fun (s : Nat) (x : Nat) => (s, s + x)⟩ : Machine Nat Nat Nat).run 10 [1, 2, 1] = [11, 12, 11] := by rfl
+example : finishApply exTgt (.ok (some [(1, 0, 1/2)])) = .ok [(5, 6)] := by decide +kernel
 
 end MenpoModel.C09
